@@ -3650,6 +3650,32 @@ void space_text()
                           __func__, __LINE__, pc->Text(), next->Text());
                   pc->SetFlagBits(PCF_FORCE_SPACE);
                }
+               else if (  pc->GetStr()[pc->Len() - 1] == '/'
+                       && (  next->GetStr()[0] == '*'
+                          || next->GetStr()[0] == '/')
+                       && !pc->IsComment())
+               {
+                  // 'a / *p' or 'a / /' without the space would start a comment
+                  LOG_FMT(LSPACE, "%s(%d): would start a comment: pc->Text() '%s', next->Text() '%s'\n",
+                          __func__, __LINE__, pc->Text(), next->Text());
+                  pc->SetFlagBits(PCF_FORCE_SPACE);
+               }
+               else if (  (  pc->Is(CT_NUMBER)
+                          || pc->Is(CT_NUMBER_FP))
+                       && (  (  strchr("eEpP", pc->GetStr()[pc->Len() - 1]) != nullptr
+                             && (  next->GetStr()[0] == '+'
+                                || next->GetStr()[0] == '-'))
+                          || (  next->IsString("...")
+                             && (  language_is_set(lang_flag_e::LANG_C)
+                                || language_is_set(lang_flag_e::LANG_CPP)
+                                || language_is_set(lang_flag_e::LANG_OC)))))
+               {
+                  // '0x1e + q' without the space is the single preprocessing number '0x1e+q',
+                  // and so is the GNU range '0 ... 31' written as '0...31' in C, C++ and Objective-C
+                  LOG_FMT(LSPACE, "%s(%d): would extend a number: pc->Text() '%s', next->Text() '%s'\n",
+                          __func__, __LINE__, pc->Text(), next->Text());
+                  pc->SetFlagBits(PCF_FORCE_SPACE);
+               }
                // TODO:  what is the meaning of 4
                else if (  !kw1
                        && !kw2
